@@ -142,3 +142,28 @@ macro_rules
     let base ← `(tactic| first | preserves_step | refine Cfdp.Preserves.modify (fun _ _ => ?_))
     let step ← ls.getElems.foldrM (fun l acc => `(tactic| first | (with_reducible apply $l; done) | ($acc:tactic))) base
     `(tactic| ((try dsimp only); repeat' ($step:tactic)))
+
+namespace Cfdp
+
+/-- Hoare triple on the result state (returned or raised): from `P` to `Q` -/
+def Triple {ε σ α : Type} (P : σ → Prop) (x : EStateM ε σ α) (Q : σ → Prop) : Prop :=
+  ∀ s, P s → Q (stateOf (x s))
+
+theorem Triple.of_preserves {ε σ α : Type} {P : σ → Prop} {x : EStateM ε σ α} (h : Preserves P x) :
+    Triple P x P := h
+
+theorem Triple.bind {ε σ α β : Type} {P R Q : σ → Prop} {x : EStateM ε σ α} {f : α → EStateM ε σ β}
+    (hx : Triple P x R) (hRQ : ∀ s, R s → Q s) (hf : ∀ a, Triple R (f a) Q) : Triple P (x >>= f) Q := by
+  intro s hp
+  have h1 := hx s hp
+  show Q (stateOf (EStateM.bind x f s))
+  unfold EStateM.bind
+  cases h : x s with
+  | ok a s' => rw [h] at h1; exact hf a s' h1
+  | error e s' => rw [h] at h1; exact hRQ _ h1
+
+theorem Triple.weaken {ε σ α : Type} {P P' Q Q' : σ → Prop} {x : EStateM ε σ α}
+    (h : Triple P x Q) (hp : ∀ s, P' s → P s) (hq : ∀ s, Q s → Q' s) : Triple P' x Q' :=
+  fun s hs => hq _ (h s (hp s hs))
+
+end Cfdp
